@@ -128,24 +128,24 @@ EXTRA = {
 # rule families added in round 6 / batch 5
 # rules added in round 8 (supporting cast outside the anchored functions) and the analysis-only pre-passes
 EXTRA3 = {
-    "C01": "grid-family dispatch reaches the anchored locator for every grid of the family (EXHAUST); no axis-independent guard inside the loop over the periodic axes (MERGE:axis-guards)",
+    "C01": "grid-family dispatch reaches the anchored locator for every grid of the family (EXHAUST); no axis-independent guard inside the loop over the periodic axes (MERGE:axis-guards); the duplicate filter gets no minimal distance (METRIC:min-distance)",
     "C03": "scalar-argument decorator passes angle arrays through unchanged (WRAP), no matrix product over grid-shaped angle arrays (SHAPE:elementwise)",
-    "C04": "sharp/boolean image of every renderer uses the class' own interface (SHARP, WIDTH, CAST composed), writes through aliases of the image incl. out= (EFFECT); level-fitting branch unreachable for adjust_values=False (LEVELS:fixed-levels)",
-    "C06": "track accessors start/end/first/last are the first/last appended element (ACCESSOR)",
-    "C07": "track accessors start/end/first/last are the first/last appended element (ACCESSOR)",
-    "C08": "constructor keeps its own list of times (FRESH), record fields declared as doubles (LAYOUT:field-types), width setter tests by identity (NONETEST); emptiness test of the dataset writers equivalent to emptiness, class comparison over every member",
+    "C04": "sharp/boolean image of every renderer uses the class' own interface (SHARP, WIDTH, CAST composed), writes through aliases of the image incl. out= (EFFECT); level-fitting branch unreachable for adjust_values=False (LEVELS:fixed-levels); zero-distance division of polar_coordinates (DIV0) and both arms of refine_droplets (PARMAP) composed in",
+    "C06": "track accessors start/end/first/last are the first/last appended element (ACCESSOR); greedy arg-min loop of the distance matcher (GREEDY), matching skipped only for empty point sets (EMPTY:only-emptiness), unfiltered point lists (INDEX:unfiltered)",
+    "C07": "track accessors start/end/first/last are the first/last appended element (ACCESSOR); EMPTY:only-emptiness and INDEX:unfiltered of the distance matcher",
+    "C08": "constructor keeps its own list of times (FRESH), record fields declared as doubles (LAYOUT:field-types), width setter tests by identity (NONETEST); emptiness test of the dataset writers equivalent to emptiness, class comparison over every member; every path through a writer opens the target (IOAGREE:total)",
     "C09": "no arithmetic on a worker count that is None for 'auto' (PARMAP:none-arithmetic), WRAP, SHAPE:elementwise; automatic levels defined for an empty fit region and converted to float (LEVELS composed)",
     "C10": "record fields declared as doubles (LAYOUT:field-types), no double application of a sort permutation (INVPERM)",
     "C11": "record fields declared as doubles (LAYOUT:field-types), width setter stores 0 as 0 (NONETEST on value-or-default)",
-    "C12": "record fields declared as doubles (LAYOUT:field-types); every path through the volume setter stores the radius (WIRING:total)",
-    "C13": "scalar-argument decorator (WRAP), no matrix product over angle arrays (SHAPE:elementwise)",
+    "C12": "record fields declared as doubles (LAYOUT:field-types); every path through the volume setter stores the radius (WIRING:total); register_jitable inner implementations of the dimension-generic factories (FORMULA:decorator)",
+    "C13": "scalar-argument decorator (WRAP), no matrix product over angle arrays (SHAPE:elementwise); no relative radius update in the 2-d volume setter (FORMULA)",
     "C14": "constructor order and own times list (FRESH), result dtype independent of the image dtype (DTYPE); result file opened for writing from scratch (IOAGREE:mode over open())",
     "C15": "writes through aliases of the shared image incl. out= keywords (EFFECT); serial branch chosen by an equality test on the process count (PARMAP:serial-test), per-item function applied once per item (PARMAP:once)",
-    "C16": "no memoised helper handing out shared arrays (STATELESS:memoised), casts derived from the image dtype (DTYPE)",
-    "C17": "STATELESS:memoised, DTYPE, removal-loop shape of the duplicate filter composed in (GUARDSHAPE, EFFECT, PAIR); MERGE:axis-guards, the caller's keyword arguments reach locate_droplets (FORWARD)",
-    "C18": "no module-level state on the way from the image to the droplets (STATELESS over locate_droplets)",
-    "C19": "both arms of refine_droplets hand out refine_droplet's own results (PARMAP composed); the returned emulsion takes its layout from its own droplets (CLASSSEL:result-layout)",
-    "C20": "an explicit dtype is applied before the members are added (REJECT:ctor-dtype); strict filter of Emulsion.copy (COPYALL:strict), surface distance of the overlap filter (SURFACE, SYMM composed), linked rows are records (LINK:record)",
+    "C16": "no memoised helper handing out shared arrays (STATELESS:memoised), casts derived from the image dtype (DTYPE); caller's smoothing width converted to float (PASS:sigma-float)",
+    "C17": "STATELESS:memoised, DTYPE, removal-loop shape of the duplicate filter composed in (GUARDSHAPE, EFFECT, PAIR); MERGE:axis-guards, the caller's keyword arguments reach locate_droplets (FORWARD); no constant answer for some droplet counts (VOLUME:every-count), `smoothing is None` selects the automatic width (NONETEST:none-default), METRIC:min-distance",
+    "C18": "no module-level state on the way from the image to the droplets (STATELESS over locate_droplets); histogram totality of the otsu rule (TOTAL composed)",
+    "C19": "both arms of refine_droplets hand out refine_droplet's own results (PARMAP composed); the returned emulsion takes its layout from its own droplets (CLASSSEL:result-layout); class registry, f-strings and tuple stores interpreted, results of public package functions are not the requested value by construction",
+    "C20": "an explicit dtype is applied before the members are added (REJECT:ctor-dtype); strict filter of Emulsion.copy (COPYALL:strict), surface distance of the overlap filter (SURFACE, SYMM composed), linked rows are records (LINK:record); strict closeness test of the removal loop (GUARDSHAPE:closeness composed)",
 }
 ALL_SUFFIX = "; all rules run on the pre-normalised program (dropstat/prenorm.py: spelling-level normal forms; dropstat/localroles.py: canonical local names)"
 EXTRA2 = {
